@@ -4,6 +4,7 @@ import (
 	"time"
 
 	"github.com/karagenc/socket.io-go/internal/sync"
+	"github.com/karagenc/socket.io-go/internal/verifhook"
 
 	"github.com/karagenc/socket.io-go/engine.io/parser"
 )
@@ -27,16 +28,19 @@ func newPollQueue() *pollQueue {
 func (pq *pollQueue) poll(pollTimeout time.Duration) []*parser.Packet {
 	timeout := time.After(pollTimeout)
 	for {
+		verifhook.Yield("pollq.beforeGet")
 		packets := pq.get()
 		if len(packets) > 0 {
 			return packets
 		}
+		verifhook.Yield("pollq.afterGet")
 
 		select {
 		case <-pq.ready:
 			// Look again. The signal can be a leftover of packets that were already taken.
 		case <-timeout:
 			// Don't answer empty if packets were queued in the meantime.
+			verifhook.Yield("pollq.beforeFinalGet")
 			return pq.get()
 		}
 	}
